@@ -371,6 +371,24 @@ def enclosing_stmt(node):
     return n
 
 
+def conditional_def(fnode, name):
+    """`if c: name = a  else: name = b` (the only definitions of ``name``) as the expression `a if c else b`."""
+    defs = [n for n in ast.walk(fnode) if isinstance(n, ast.Assign) and len(n.targets) == 1 and U(n.targets[0]) == name]
+    if len(defs) != 2:
+        return None
+    p0, p1 = parent(defs[0]), parent(defs[1])
+    if p0 is not p1 or not isinstance(p0, ast.If) or len(p0.body) != 1 or len(p0.orelse) != 1:
+        return None
+    a = p0.body[0] if p0.body[0] in defs else None
+    b = p0.orelse[0] if p0.orelse[0] in defs else None
+    if a is None or b is None:
+        return None
+    e = ast.IfExp(test=p0.test, body=a.value, orelse=b.value)
+    ast.copy_location(e, p0)
+    e._parent = p0
+    return e
+
+
 def enclosing_func_node(node):
     n = parent(node)
     while n is not None and not isinstance(n, (ast.FunctionDef, ast.AsyncFunctionDef)):
